@@ -73,7 +73,7 @@ pub fn small_real(r: &mut GRng) -> MDist {
 
 /// real distributions for timeouts / durations, including unbounded tails
 pub fn dur_real(r: &mut GRng) -> MDist {
-    match r.gen_range(0..12) {
+    match r.gen_range(0..14) {
         0 => rd("Uniform", &[0.0, 10.0], 0.0, 0.0),
         1 => rd("Uniform", &[0.0, 1e15], 0.0, 0.0),
         2 => rd("Pareto", &[1.0, 0.1], 0.0, 0.0),
@@ -85,6 +85,8 @@ pub fn dur_real(r: &mut GRng) -> MDist {
         8 => rd("Geometric", &[1e-9], 0.0, 0.0),
         9 => rd("Binomial", &[1e9, 0.5], 0.0, 0.0),
         10 => rd("Beta", &[0.5, 0.5], 0.0, 0.5),
+        11 => rd("Uniform", &[0.0, 1e15], 0.0, 1e13),
+        12 => rd("Pareto", &[1e9, 0.5], 1e11, 1e14),
         _ => rd("SkewNormal", &[0.0, 1e13, -2.0], 0.0, 0.0),
     }
 }
@@ -294,7 +296,7 @@ pub fn gen_history(r: &mut GRng, n: usize, calls: usize, big_ids: bool) -> Vec<C
     for _ in 0..calls {
         let step = *pick(r, &[0i64, 0, 1, 1, 2, 5, 50, 1000, -3]);
         t = (t + step).clamp(-10, 900_000);
-        let len = *pick(r, &[1usize, 1, 1, 1, 0, 2, 3]);
+        let len = *pick(r, &[1usize, 1, 1, 1, 0, 2, 3, 4, 5]);
         h.push(Call {
             events: (0..len).map(|_| gen_event(r, n, big_ids)).collect(),
             t,
